@@ -813,7 +813,11 @@ func do_END_FINALLY(vm *Vm, arg int32) error {
 // Loads the __build_class__ helper function to the stack which
 // creates a new class object.
 func do_LOAD_BUILD_CLASS(vm *Vm, arg int32) error {
-	vm.PUSH(vm.context.Store().Builtins.Globals["__build_class__"])
+	buildClass, ok := vm.context.Store().Builtins.Globals["__build_class__"]
+	if !ok {
+		return py.ExceptionNewf(py.NameError, "__build_class__ not found")
+	}
+	vm.PUSH(buildClass)
 	return nil
 }
 
